@@ -156,7 +156,46 @@ def helper_timeseries(case):
             "tags": ["helper-timeseries", "level%d" % level], "sample": dict(case, level=level, order=list(order))}
 
 
+def chain_orders(case):
+    """two couplings chained through one gas net (power-led G2P writes a sink of gas, a G2G converts that sink into a source of
+    gas2) with fractional controller orders, the later one created first: after run_control the source of gas2 holds the
+    conversion of the value the first coupling wrote in the same run"""
+    import pandapower as ppw
+    import pandapipes as pp
+    from pandapipes.multinet.control.controller.multinet_control import G2PControlMultiEnergy, GasToGasConversion
+    from pandapipes.multinet.control.run_control_multinet import run_control
+    rng = np.random.default_rng(case["seed"])
+    mn, gas, power, gas2 = small_multinet(pp, ppw, case["fluid"])
+    hhv = float(np.ravel(pp.get_fluid(gas).get_property("hhv"))[0])
+    hhv2 = float(np.ravel(pp.get_fluid(gas2).get_property("hhv"))[0])
+    e1, e2 = float(rng.uniform(0.4, 0.95)), float(rng.uniform(0.4, 0.95))
+    p = float(rng.uniform(1.0, 20.0))
+    o1, o2 = sorted(float(x) for x in rng.choice([0.2, 0.3, 0.4, 0.6, 0.7, 1.5, 2.0], 2, replace=False))
+    sg = ppw.create_sgen(power, 1, p_mw=p)
+    sk = pp.create_sink(gas, 1, 1e-4)
+    src = pp.create_source(gas2, 1, 0.0)
+    # the controller that has to run second is created first
+    GasToGasConversion(mn, sk, src, e2, name_gas_net_from="gas", name_gas_net_to="gas2", order=o2)
+    G2PControlMultiEnergy(mn, sg, sk, efficiency=e1, element_type_power="sgen", calc_gas_from_power=True, order=o1)
+    try:
+        run_control(mn, max_iter_hyd=60)
+    except Exception as e:
+        return {"status": "skip:" + type(e).__name__}
+    m_sink = p / ((hhv * 3600 / 1e3) * e1)
+    want = m_sink * (hhv / hhv2) * e2
+    got = float(gas2.source.at[src, "mdot_kg_per_s"])
+    fails = []
+    if abs(got - want) > 1e-12 * (1 + abs(want)):
+        fails.append({"fingerprint": "C20:chained-couplings:order", "clause": "written value = converted value of the coupled element (controller orders)",
+                      "detail": {"orders": [o1, o2], "written": got, "expected": want, "sink_written": float(gas.sink.at[sk, "mdot_kg_per_s"]),
+                                 "stored_orders": [float(np.ravel(x)[0]) if np.ndim(x) else float(x) for x in mn.controller.order.values]}})
+    return {"status": "ok", "failures": fails, "hash": "chain" + str(sorted(case.items())), "nontrivial": True, "tags": ["chain-orders"],
+            "sample": dict(case, orders=[o1, o2])}
+
+
 def gen(rng):
+    if rng.random() < 0.2:
+        return {"chain_orders": True, "fluid": str(rng.choice(["hgas", "lgas", "hydrogen", "methane"])), "seed": int(rng.integers(0, 2 ** 31))}
     if rng.random() < 0.3:
         return {"helper_ts": True, "fluid": str(rng.choice(["hgas", "lgas", "hydrogen", "methane"])), "seed": int(rng.integers(0, 2 ** 31))}
     return {"fluid": str(rng.choice(["hgas", "lgas", "hydrogen", "methane"])), "seed": int(rng.integers(0, 2 ** 31)),
@@ -164,6 +203,8 @@ def gen(rng):
 
 
 def oracle(case):
+    if case.get("chain_orders"):
+        return chain_orders(case)
     if case.get("helper_ts"):
         return helper_timeseries(case)
     import pandapower as ppw
